@@ -445,13 +445,20 @@ def rust_runner(pid, tier, seed, rundir, cfg, search_more=False):
         # the code under test (or the harness against it) no longer compiles: nothing can be checked
         res["broken"].append(f"{pid}/corr/harness-build: " + short(out[-1500:], 1500))
         return res
+    henv = dict(ENV)
+    if cfg.get("needs_cli"):
+        okc, outc = cargo_build_cli()
+        if not okc:
+            res["broken"].append(f"{pid}/corr/cli-build: " + short(outc[-1500:], 1500))
+            return res
+        henv["COPIA_BIN"] = CLI_BIN
     seeds = [seed]
     total_lines = 0
     agg = None
     for attempt, s in enumerate(seeds + [seed + 1000003, seed + 2000003]):
         d = os.path.join(rundir, f"s{attempt}")
         os.makedirs(d, exist_ok=True)
-        r = run([HARNESS_BIN, pid, tier, str(s), d], timeout=cfg.get("timeout", 3000))
+        r = run([HARNESS_BIN, pid, tier, str(s), d], env=henv, timeout=cfg.get("timeout", 3000))
         if r.returncode != 0:
             res["broken"].append(f"{pid}/corr/harness-run rc={r.returncode}: " + short(r.stdout[-800:], 800))
             return res
